@@ -207,7 +207,7 @@ add("m2_slider_moves_bishop", ["C11"], "quick", "slider_moves(bishop deltas, sq,
     ["slider_moves", "try_offset", "to_rank_file", "from_rank_file"], "symbolic square, symbolic 64-bit blocker set", module=MT, unwind=9, est_s=60)
 add("m2_lookup_standins", ["C11", "C01"], "quick", "the slider_moves-based stand-ins used where lookups are stubbed equal the reference rays",
     ["slider_moves"], "symbolic square, symbolic blockers", module=MT, unwind=9, est_s=60)
-add("m3_make_table_small", ["C11"], "thorough",
+add("m3_make_table_small", ["C11"], "experimental",
     "real make_table on a harness-supplied magic set (2-bit masks on a1,d1,b2,d4, empty elsewhere, symbolic multiplier): every slot a subset indexes holds slider_moves of a subset with that index",
     ["make_table", "magic_index", "slider_moves"], "masks <= 2 bits on 4 representative squares; symbolic multiplier", module=MT, unwind=66, est_s=900, heavy=True)
 
@@ -291,7 +291,7 @@ for col, cname in [("w", "White"), ("b", "Black")]:
         "fully symbolic Disjoint board; two marker moves from the stubbed generator",
         stubs=[NOSPILL, "MoveGenerator::generate_moves -> two marker moves; MoveGenerator::lazily_calculate_chess_move_effect -> records its player argument, sets Check (its own contract: c06_effect_*)"],
         module=MG, est_s=120, native=["generate_moves_ewire", "effect_ewire"])
-add("c19_uci_promo_suffix", ["C19"], "quick",
+add("c19_uci_promo_suffix", ["C19"], "experimental",
     "ChessMove::to_uci of a capturing promotion a7xb8 for each of the four promotion pieces (the whole domain of the suffix selector) and of a plain move: origin, destination, suffix letter q/r/b/n naming the piece / no suffix",
     ["ChessMove::to_uci", "to_algebraic", "alloc::fmt::format"], "all arguments concrete (core::fmt with symbolic &str arguments is not executable in CBMC: >10 GB measured); exhaustive over the promotion piece, squares fixed",
     module=AN, unwind=66, est_s=300)
